@@ -22,7 +22,7 @@ run() { # label prop
 ids=${*:-$(ls /verif/seeded)}
 for id in $ids; do
   (cd "$WT" && patch -p1 -s < /verif/seeded/$id/patch.diff) || { echo "ERROR   seed $id does not apply"; fail=1; continue; }
-  run "seed $id" "$id"
+  run "seed $id" "$(echo $id | cut -c1-3)"
   (cd "$WT" && patch -p1 -R -s < /verif/seeded/$id/patch.diff)
 done
 if [ $# -eq 0 ]; then
